@@ -328,6 +328,8 @@ WANT = {
     "bare": lambda top: top["k"] == "bare" and any(n["k"] == "root" and n.get("collators") for n in _nodes(top)),
     "concat_collators": lambda top: any(n.get("collate_roots") for n in _nodes(top)),
     "mix": lambda top: any(n["k"] == "mix" for n in _nodes(top)),
+    "edit": lambda top: any(k in __import__("json").dumps(top) for k in ('"edit":', '"late":')),
+    "shared_cfg": lambda top: any(n.get("cfg") for n in _nodes(top)),
 }
 
 
@@ -398,7 +400,13 @@ def gen_probe_tree(rng, depth, tag, where="", sched_ok=True, allow_sched=True, p
                    for i in range(rng.choice([1, 2, 2, 3]))]
         if rng.random() < 0.3:     # a member that is no KDTransform (plain callable), first / in the middle / last
             members.insert(rng.randint(0, len(members)), {"t": "plain"})
+        edit = None
+        if rng.random() < 0.25:    # the compose is edited after construction: a stochastic member appended / inserted / replacing one
+            op = rng.choice(["append", "insert", "replace"])
+            edit = {"op": op, "pos": rng.randrange(len(members)), "member": {"t": "probe", "tag": tag(f"{where}/{kind}+{op}")}}
         node = {"t": "compose", "members": members}
+        if edit is not None:
+            node["late"] = edit
         if kind == "list" and where:     # a bare list is only meaningful as a member of a compose
             node["implicit"] = True
         return node
@@ -482,12 +490,49 @@ def gen_probe_chain(rng, prefix, allow_sched=True, allow_collators=True, root=No
 
 
 def gen_probe_stack(rng, want=None):
+    if want == "shared_cfg":
+        return gen_shared_config_stack(rng)
     return _until(rng, lambda: _maybe_bare(rng, _fix_cforms(_gen_probe_stack(rng)), p=0.5 if want == "bare" else 0.2), want)
+
+
+def gen_shared_config_stack(rng):
+    """an UNSEEDED and a SEEDED KDMultiViewWrapper built from ONE python list of view configs (the wrapper copies the list), main
+    and side dataset of an InterleavedSampler with a side pass after every update: both are served by the same workers in
+    interleaved order. The unseeded part must still draw worker-specific streams that follow the base seed."""
+    tag = _Tagger("s.")
+    T = H.t_img("tensor", rng.choice([1, 3]), 4, 4)
+    n = rng.choice([6, 8])
+    root = {"k": "root", "n": n, "T": T, "data_seed": rng.randrange(10 ** 6), "onehot": False, "collators": [], "rid": _new_rid(rng)}
+    configs = []
+    for ci in range(rng.choice([1, 2, 3])):
+        form = rng.choice(["config", "tuple", "dict", "bare"])
+        configs.append({"n": 1 if form == "bare" else rng.choice([1, 2]), "form": form,
+                        "tree": gen_probe_tree(rng, rng.choice([0, 0, 1, 2]), tag, f"view{ci}", allow_sched=False)})
+    cfg = _new_rid(rng)
+    seed = rng.choice([0, 5, rng.randrange(1000)])
+
+    def part(seeded, other_root):
+        base = root if not other_root else dict(root, rid=_new_rid(rng), data_seed=rng.randrange(10 ** 6))
+        cur = base
+        if rng.random() < 0.4:
+            cur, _ = _dataset_level(rng, rng.choice(["shuffle", "pass"]), cur, n)
+        mv = {"k": "mv", "configs": configs, "cfg": cfg, "child": cur}
+        if seeded:
+            mv["seed"] = seed
+        return {"k": "mode", "mode": rng.choice(["x", "x class"]), "return_ctx": False, "cform": "compose", "child": mv}
+
+    other = rng.random() < 0.3
+    parts = [part(False, False), part(True, other)]
+    if rng.random() < 0.4:
+        parts.reverse()      # the seeded wrapper is constructed first / is the main dataset
+    return {"k": "interleaved", "batch_size": 2, "every_n_updates": 1, "children": parts}
 
 
 def _gen_probe_stack(rng):
     """chain / concat of chains / interleaved chains; the parts of a concat or an interleaved stack frequently sit on ONE root"""
     r = rng.random()
+    if r < 0.08:
+        return gen_shared_config_stack(rng)
     if r < 0.25:
         first = gen_probe_chain(rng, "i0.", allow_sched=False)
         root = None
